@@ -27,6 +27,7 @@ import (
 func init() {
 	core.Register(&core.Check{
 		ID:        "C19",
+		Also:      []string{"C19R"}, // concurrent batch-visibility lane under the race detector (race.go)
 		Level:     "exploration",
 		Technique: "differential monitoring of the real libs/db backends (memdb, goleveldb, bolt, badger, prefix views) against a reference sorted byte-string map, compared after every operation",
 		Rule: "case = one generated history (direct and batched set/delete, up to two batches open at once, batch write/commit/reset/reuse/abandon, close+reopen) on one backend configuration " +
@@ -44,7 +45,7 @@ func init() {
 		},
 		Cases: func(tier string) int {
 			if tier == "thorough" {
-				return 36000
+				return 30000
 			}
 			return 1500
 		},
@@ -1352,7 +1353,7 @@ func floors(tier string) map[string]int64 {
 	q := map[string]int64{
 		"ops": 70000, "full_scans": 70000, "lookups_compared": 900000, "lookups_found": 135000, "lookups_absent": 85000,
 		"iter_forward_nonempty": 16000, "iter_reverse_nonempty": 22000, "iter_prefix_nonempty": 14000, "iter_prefix_helper": 7000,
-		"batches_written": 2500, "batches_written_with_repeated_key": 1100, "batches_written_after_reset": 400,
+		"batches_written": 2500, "batches_written_with_repeated_key": 1100, "batches_written_after_reset": 350, "two_batches_open": 600,
 		"batches_reset": 900, "batches_abandoned": 700, "reopens": 2200, "reopens_with_open_batch": 1000,
 		"underlying_scans": 8000, "outside_writes": 1700, "empty_key_ops": 1000, "histories_completed": 640,
 		"cases_memdb": 95, "cases_memdb+prefixview": 95, "cases_goleveldb": 100, "cases_goleveldb+prefixview": 100,
@@ -1361,7 +1362,7 @@ func floors(tier string) map[string]int64 {
 	}
 	if tier == "thorough" {
 		for k, v := range q {
-			q[k] = v * 24 // 36000 / 1500 cases
+			q[k] = v * 20 // 30000 / 1500 cases
 		}
 	}
 	return q
